@@ -525,8 +525,22 @@ theorem ctl_fields {b b' : Buf} (h : b'.ctl = b.ctl) :
 /-- the linear budget of an in-place subtable -/
 def mu (b : Buf) : Nat := (b.len - b.idx) + b.maxOps.toNat
 
+theorem ofInfo_toInfo (g : G) : ofInfo (toInfo g) = g := rfl
+
+theorem roundtrip (a : Array G) : ((a.toList.map toInfo).map ofInfo).toArray = a := by
+  simp [List.map_map, Function.comp_def, ofInfo_toInfo]
+
+/-- reading back the embedding with some control fields changed -/
+theorem comp_id : (ofInfo ∘ toInfo) = id := by funext g; rfl
+
+theorem ofS_toS (b : Buf) (i : Nat) : ofS b { toS b with idx := i } = { b with idx := i } := by
+  simp [ofS, toS, comp_id]
+
 theorem nextGlyph_inplace {b : Buf} (h : b.haveOutput = false) : nextGlyph b = .ok { b with idx := b.idx + 1 } := by
-  simp [nextGlyph, h]; rfl
+  have hs : (toS b).haveOutput = false := h
+  have e : (toS b).nextGlyph = .ok { toS b with idx := b.idx + 1 } := by
+    simp [RbModel.Buf.nextGlyph, hs, pure, Except.pure]; rfl
+  simp only [nextGlyph, viaS, e, liftS, ofS_toS]
 
 theorem advance_inplace {b b2 : Buf} {ca : Bool} (ho : b.haveOutput = false) (hs : b.successful = true)
     (hlt : b.idx < b.len) (h : advance ca b = .ok b2) :
